@@ -1,6 +1,9 @@
 use mc::checks;
 use mc::ev::{self, Tier};
 
+#[global_allocator]
+static GLOBAL: mc::alloc::Counting = mc::alloc::Counting;
+
 fn usage() -> ! {
     eprintln!("usage: checks <Cxx> [quick|thorough] [--replay <file>]");
     std::process::exit(2)
@@ -62,6 +65,7 @@ fn main() {
         "C10" => c10,
         "C11" => c11,
         "C12" => c12,
+        "C13" => c13,
         "C16" => c16,
         "C17" => c17,
         "C18" => c18,
